@@ -320,6 +320,7 @@ def do_replay(prop, path):
 
 def do_run(prop, tier, seed, only, write_evidence):
     t0 = time.time()
+    dbg = (lambda m: sys.stderr.write('[%6.1fs] %s\n' % (time.time() - t0, m))) if os.environ.get('VERIF_DEBUG') else (lambda m: None)
     mod = _load(prop)
     known, fixed = load_ledger(prop)
     out_lines = []
@@ -360,6 +361,7 @@ def do_run(prop, tier, seed, only, write_evidence):
                                 tier, seed)
             violations.append((s, path))
 
+    dbg('ledger replayed')
     # ---- 2. generated search
     specs = mod.shards(tier)
     if only:
@@ -374,6 +376,7 @@ def do_run(prop, tier, seed, only, write_evidence):
                     p.terminate()
                     return 2
                 results.append(d)
+    dbg('shards done')
     results.sort(key=lambda d: d['seed'])
 
     merged = Collector()
@@ -420,15 +423,19 @@ def do_run(prop, tier, seed, only, write_evidence):
         else:
             new_sigs[sig] = f
 
+    dbg('merged; %d new signatures' % len(new_sigs))
+    shrunk = shrink_many(prop, tier, [(sig, f) for sig, f in new_sigs.items()
+                                      if getattr(mod, 'SHRINK', True) and f.get('spec') is not None
+                                      and f['spec'].get('hypothesis', False)])
     for sig, f in new_sigs.items():
         case, detail = f['case'], f['detail']
-        if getattr(mod, 'SHRINK', True) and f.get('spec') is not None and f['spec'].get('hypothesis', False):
-            small = shrink_case(prop, tier, f['spec'], f['seed'], sig)
-            if small is not None and len(canon(small[0])) <= len(canon(case)):
-                case, detail = small
+        small = shrunk.get(sig)
+        if small is not None and len(canon(small[0])) <= len(canon(case)):
+            case, detail = small
         path = write_replay(prop, sig, case, detail, tier, seed)
         violations.append((sig, path))
 
+    dbg('shrunk')
     # ---- 4. evidence
     wall = time.time() - t0
     distinct = len(merged.nontrivial) + merged.bulk_nontrivial
@@ -476,20 +483,28 @@ def do_run(prop, tier, seed, only, write_evidence):
     return 1 if violations else 0
 
 
-def shrink_case(prop, tier, spec, seed, sig, timeout=None):
-    """Second seeded pass that raises only for `sig`, so Hypothesis shrinks it. Bounded by a
-    watchdog; on timeout the smallest collected case is kept."""
-    timeout = timeout or (90 if tier == 'quick' else 420)
-    with _pool(1) as p:
-        r = p.apply_async(_worker, ((prop, tier, spec, seed, sig),))
-        try:
-            status, d = r.get(timeout=timeout)
-        except multiprocessing.TimeoutError:
-            p.terminate()
-            return None
-    if status != 'ok' or d.get('hunt_case') is None:
-        return None
-    return d['hunt_case'], d['hunt_detail']
+def shrink_many(prop, tier, items, max_jobs=None):
+    """Second seeded pass per new signature that raises only for that signature, so Hypothesis
+    shrinks it.  Jobs run in parallel under one watchdog; on timeout the smallest collected case
+    is kept.  At most `max_jobs` signatures are shrunk (the rest keep their smallest collected case)."""
+    max_jobs = max_jobs or (16 if tier == 'quick' else 48)
+    budget_s = 60 if tier == 'quick' else 420
+    items = sorted(items, key=lambda t: t[0])[:max_jobs]
+    out = {}
+    if not items:
+        return out
+    with _pool(len(items)) as p:
+        pending = [(sig, p.apply_async(_worker, ((prop, tier, f['spec'], f['seed'], sig),))) for sig, f in items]
+        deadline = time.time() + budget_s
+        for sig, r in pending:
+            try:
+                status, d = r.get(timeout=max(0.1, deadline - time.time()))
+            except multiprocessing.TimeoutError:
+                continue
+            if status == 'ok' and d.get('hunt_case') is not None:
+                out[sig] = (d['hunt_case'], d['hunt_detail'])
+        p.terminate()
+    return out
 
 
 def write_replay(prop, sig, case, detail, tier, seed):
